@@ -142,7 +142,7 @@ class WaitGate(raw_types.Gate):
         )
 
     def _value_equality_values_(self) -> Any:
-        return self.duration
+        return self.duration, tuple(self._qid_shape)
 
 
 def wait(
